@@ -3,12 +3,16 @@ package main
 import (
 	"verif/checks/c01"
 	"verif/checks/c02"
+	"verif/checks/c03"
 	"verif/checks/c06"
 	"verif/checks/c07"
 	"verif/checks/c11"
+	"verif/checks/c17"
 )
 
 func init() {
+	register("C17", "exploration", c17.Run)
+	register("C03", "model_checking", c03.Run)
 	register("C06", "model_checking", c06.Run)
 	register("C02", "exploration", c02.Run)
 	register("C07", "exploration", c07.Run)
